@@ -185,13 +185,10 @@ mod verif_layout {
     permuted_ok!(permuted_matches_model_2, 2);
     permuted_ok!(permuted_matches_model_3, 3);
 
-    #[kani::proof]
-    #[kani::unwind(8)]
-    pub fn move_axis_matches_model_3() {
+    /// move_axis(from, to) for one CONCRETE pair (SmallVec::remove/insert with symbolic positions
+    /// make CBMC copy symbolic-length ranges: the fully symbolic version did not complete).
+    fn move_axis_case(from: usize, to: usize) {
         let l: NdLayout<3> = any_layout_small();
-        let from: usize = kani::any();
-        let to: usize = kani::any();
-        kani::assume(from < 3 && to < 3);
         let mut m = l;
         m.move_axis(from, to);
         // reference: remove `from`, insert at `to`
@@ -208,7 +205,35 @@ mod verif_layout {
         for pos in 0..3 {
             assert!(m.size(pos) == l.size(order[pos]) && m.stride(pos) == l.stride(order[pos]));
         }
+        // the dynamic-rank layout agrees
+        let mut dl = l.as_dyn();
+        dl.move_axis(from, to);
+        for pos in 0..3 {
+            assert!(dl.size(pos) == l.size(order[pos]) && dl.stride(pos) == l.stride(order[pos]));
+        }
     }
+
+    #[kani::proof]
+    #[kani::unwind(8)]
+    pub fn move_axis_matches_model_3_0to2() { move_axis_case(0, 2); }
+    #[kani::proof]
+    #[kani::unwind(8)]
+    pub fn move_axis_matches_model_3_2to0() { move_axis_case(2, 0); }
+    #[kani::proof]
+    #[kani::unwind(8)]
+    pub fn move_axis_matches_model_3_0to1() { move_axis_case(0, 1); }
+    #[kani::proof]
+    #[kani::unwind(8)]
+    pub fn move_axis_matches_model_3_1to0() { move_axis_case(1, 0); }
+    #[kani::proof]
+    #[kani::unwind(8)]
+    pub fn move_axis_matches_model_3_1to2() { move_axis_case(1, 2); }
+    #[kani::proof]
+    #[kani::unwind(8)]
+    pub fn move_axis_matches_model_3_2to1() { move_axis_case(2, 1); }
+    #[kani::proof]
+    #[kani::unwind(8)]
+    pub fn move_axis_matches_model_3_1to1() { move_axis_case(1, 1); }
 
     // ---------------------------------------------------------------- split / index_axis / slice_axis
 
